@@ -21,7 +21,7 @@ func init() {
 		NotDecided: "byte transparency of the default route under arbitrary write splits; accept/close races; that Accept never blocks after stop for every ordering.",
 		Rules: []Rule{
 			{ID: "C16.R1", Doc: "routes only under mu; Route registers only absent prefixes; closes inside sync.Once with the error stored first", Run: c16r1},
-			{ID: "C16.R2", Doc: "routeConn: ReadFull of prefixLen bytes; key = those bytes; prefix replay only on default route; conn closed xor delivered once", Run: c16r2},
+			{ID: "C16.R2", Doc: "routeConn: ReadFull of prefixLen bytes; key = those bytes; prefix replay only on default route; conn closed xor delivered once; the hand-off channel is unbuffered", Run: c16r2},
 			{ID: "C16.R3", Doc: "HeaderConn.Write: header only inside once.Do, prepended in a single Write; plain Write only if the Once did not run in this call", Run: c16r3},
 			{ID: "C16.R4", Doc: "Run waits for routed listeners and closes the default one after done; monitorListener closes on m.done; Accept selects on done", Run: c16r4},
 			{ID: "C16.R5", Doc: "close-once for every close(ch) in drpcmigrate", Run: func(c *an.Ctx) { closeOnce(c, "drpcmigrate") }},
@@ -249,6 +249,24 @@ func c16r2(c *an.Ctx) {
 		}
 	})
 	c.Check(okRead2, "(*prefixConn).Read | reads through the prefix-replaying reader", c.P.Pos(pr.Pos()), "", "prefixConn.Read bypasses the replaying reader: the consumed prefix is lost")
+	// the hand-off channel is a rendezvous: a send that succeeds means an Accept call owns the connection.
+	// With a buffer, routeConn "delivers" into a queue that a closed or stopped listener never drains.
+	connsF := a.field("drpcmigrate", "listener", "conns")
+	nMk := 0
+	for _, fn := range must(c.P.SourceFuncs("drpcmigrate")) {
+		for _, st := range fieldStores(fn, connsF) {
+			nMk++
+			mk, isMk := an.Resolve(st.Val).(*ssa.MakeChan)
+			ok := false
+			if isMk {
+				if k, isK := an.ConstInt(mk.Size); isK && k == 0 {
+					ok = true
+				}
+			}
+			c.Check(ok, "listener | the channel handing connections to Accept is unbuffered", c.At(st), "", "connections can be queued with no Accept pending: if the listener is closed or the mux stops they are neither delivered nor closed")
+		}
+	}
+	c.Floor("creations of listener.conns", 1, nMk)
 }
 
 // orderOfVariadic reports whether the element at index 0 of the variadic array satisfies first.
